@@ -159,17 +159,23 @@ type InjectedPanic struct{ Site uint32 }
 
 func (InjectedPanic) Error() string { return "simrt: injected panic" }
 
+// InjectedPanicString is the non-error panic value used by every other injection: code that
+// recovers must cope with panic values that are not errors.
+const InjectedPanicString = "simrt: injected panic (not an error value)"
+
 var (
-	mode     int32
-	turn     int32 // task holding the turn (ModeSim)
-	ntasks   int32
-	tstate   [MaxTasks]int32
-	tblock   [MaxTasks]unsafe.Pointer
-	tsteps   [MaxTasks + 1]int64 // steps in current operation; [MaxTasks] = solo
-	tcleanup [MaxTasks + 1]int32
-	tinparse [MaxTasks + 1]int32
-	tinject  [MaxTasks + 1]int64 // countdown of eligible sites until injection (0 = none)
-	tprio    [MaxTasks]int32
+	mode      int32
+	turn      int32 // task holding the turn (ModeSim)
+	ntasks    int32
+	tstate    [MaxTasks]int32
+	tblock    [MaxTasks]unsafe.Pointer
+	tsteps    [MaxTasks + 1]int64 // steps in current operation; [MaxTasks] = solo
+	tcleanup  [MaxTasks + 1]int32
+	tinparse  [MaxTasks + 1]int32
+	tinject   [MaxTasks + 1]int64 // countdown of eligible sites until injection (0 = none)
+	tinjkind  [MaxTasks + 1]int32 // 0: panic value is an error, 1: a plain string
+	tinjfired [MaxTasks + 1]int32
+	tprio     [MaxTasks]int32
 
 	abort       int32
 	abortWho    int32
@@ -184,6 +190,7 @@ var (
 	targetFunc  int32
 	pctChange   [8]int64
 	pctN        int32
+	pctBase     int64 // value of steps when the concurrent phase began
 	poolPolicy  int32
 	mapPolicy   int32
 	poolDropPct int32
@@ -404,6 +411,7 @@ func BeginRun(c RunConfig) {
 	}
 	gapLeft = 0
 	pctN = 0
+	pctBase = steps
 	if strategy == StratPCT {
 		// random distinct priorities (higher runs first), d-1 change points
 		for i := 0; i < c.Tasks; i++ {
@@ -576,6 +584,10 @@ func Yield(site uint32) {
 				}
 				mix(uint64(site) | 1<<40)
 				trace(EvInject, me, 0, int(site))
+				tinjfired[me] = 1
+				if tinjkind[me] != 0 {
+					panic(InjectedPanicString)
+				}
 				panic(InjectedPanic{Site: site})
 			}
 		}
@@ -591,7 +603,7 @@ func Yield(site uint32) {
 		sw = site == SeamOpBoundary
 	case StratPCT:
 		for i := 0; i < int(pctN); i++ {
-			if pctChange[i] == steps {
+			if pctChange[i] == steps-pctBase {
 				// demote the running task below everybody
 				tprio[me] = int32(i)
 			}
@@ -730,7 +742,14 @@ func EnterParse(inject int) {
 	tinparse[i] = 1
 	tcleanup[i] = 0
 	tinject[i] = int64(inject)
+	tinjkind[i] = int32(inject & 1)
+	tinjfired[i] = 0
 }
+
+// InjectionFired reports whether the panic armed by the last EnterParse was raised.
+//
+//go:norace
+func InjectionFired() bool { return tinjfired[slot()] != 0 }
 
 //go:norace
 func LeaveParse() {
